@@ -146,6 +146,10 @@ def param_terms(tier: str):
             out.append(Exp(u, b))
             if b != 1:
                 out.append(Log(u, b))
+    for c in (-3, -2.5, -2, -1.5, -1, -0.5, 0, 0.5, 1, 1.5, 2, 2.5, 3, 3.5, 4, 0.25, -0.25, 7, 10.5):
+        for u in operands:
+            out.append(Pow(u, C(c)))
+            out.append(Pow(C(abs(c) + 0.5), Mul(C(c), u)))
     small = (2, 3, 5, 9) if tier != "thorough" else (2, 3, 4, 5, 6, 9, 15)
     for n in small:
         for m in small:
@@ -154,6 +158,65 @@ def param_terms(tier: str):
             out.append(NPow(Root(x, n), m))
             out.append(Mul(Root(x, n), Root(y, m)))
             out.append(Mul(NPow(x, n), NPow(y, m)))
+    return out
+
+
+# ---------------------------------------------------------------- ARITH
+def arith_terms(tier: str):
+    """Exactness of the arithmetic kernels on a wide range of small-integer operands (variable-free, one
+    point each): a/b for every a <= 120, b <= 100 whose quotient is dyadic (the exactness clause of C01
+    applies), a/a, reciprocals of powers of two, integer powers below 2^53, perfect squares under sqrt,
+    products and sums of 3-4 integers, b**k for small rational results."""
+    out = []
+    lim_a, lim_b = (120, 100) if tier != "thorough" else (400, 200)
+    for b in range(1, lim_b + 1):
+        odd = b
+        while odd % 2 == 0:
+            odd //= 2
+        for a in range(odd, lim_a + 1, odd):
+            out.append(Div(C(a), C(b)))
+        out.append(Div(x, C(b)))          # evaluated on the integer grid of x
+        out.append(Div(C(b), C(b)))
+        out.append(Recip(Recip(C(b))))
+    for a in range(2, 31):
+        for n in range(2, 9):
+            if a ** n < 2 ** 53:
+                out.append(NPow(C(a), n))
+                out.append(NPow(C(-a), n))
+        out.append(Root(C(a * a), 2))
+        out.append(Root(C(a * a * a * a), 2))
+        out.append(Mul(C(a), C(a + 1), C(a + 2)))
+        out.append(Add(C(a), C(-a - 1), C(0.5), C(a * 1024)))
+        out.append(Minus(C(a * 3), C(a)))
+        out.append(Pow(C(a * a), C(0.5)))
+        out.append(Exp(C(a % 7), 2))
+        out.append(Exp(C(-(a % 7)), 2))
+    for k in range(-8, 9):
+        out.append(Exp(C(k), 4))
+        out.append(Exp(C(k / 2), 4))
+        out.append(Pow(C(4), C(k / 2)))
+        out.append(Pow(C(0.25), C(k / 2)))
+    return out
+
+
+# ---------------------------------------------------------------- MULTIVAR
+def multivar_terms(tier: str):
+    """Expressions over four and five variables (the enumerated alphabets stop at three)."""
+    z, w, u = V("z"), V("w"), V("u")
+    out = [
+        Add(x, y, z, w), Mul(x, y, z, w), Add(x, y, z, w, u), Mul(x, y, z, w, u),
+        Add(Mul(x, y), Mul(z, w)), Minus(Mul(x, w), Mul(y, z)), Div(Add(x, y), Add(z, w)),
+        Mul(Add(x, C(1)), Add(y, C(2)), Add(z, C(3)), Add(w, C(4))),
+        Add(NPow(x, 2), NPow(y, 2), NPow(z, 2), NPow(w, 2), NPow(u, 2)),
+        Pow(Add(x, y, C(3)), Mul(z, w)), Log(Add(NPow(x, 2), NPow(y, 2), NPow(z, 2), NPow(w, 2), C(1))),
+        Exp(Add(x, Neg(y), z, Neg(w)), 2), Sin(Mul(x, y, z, w)), Root(Add(Mul(x, y), Mul(z, w), C(10)), 3),
+        Add(Mul(x, u), Mul(y, w), Mul(z, z)), Div(Mul(x, y, z), Mul(w, u)),
+    ]
+    if tier == "thorough":
+        vars5 = [x, y, z, w, u]
+        import itertools as it
+        for a, b, c, d in it.permutations(vars5, 4):
+            out.append(Add(Mul(a, b), Div(c, d)))
     return out
 
 
